@@ -78,7 +78,13 @@ def build_sankey_system(spec):
     flows = {}
     for k, (s, d, a) in enumerate(spec["flows"]):
         name = f"F{k}:{PROCS[s]}>{PROCS[d]}"
-        flows[name] = flodym.Flow(from_process=procs[PROCS[s]], to_process=procs[PROCS[d]], name=name, dims=DS(a), values=fvals(a, k))
+        v = fvals(a, k)
+        z = spec.get("zero")
+        if k == 0 and z and z in a:  # the first item of that dimension is absent from the first flow
+            idx = [slice(None)] * len(a)
+            idx[a.index(z)] = 0
+            v[tuple(idx)] = 0.0
+        flows[name] = flodym.Flow(from_process=procs[PROCS[s]], to_process=procs[PROCS[d]], name=name, dims=DS(a), values=v)
     return flodym.MFASystem(dims=DS("tpq"), parameters={}, processes=procs, flows=flows, stocks={})
 
 
@@ -94,10 +100,10 @@ def slice_obj(sl):
     return out
 
 
-def run_sankey_case(spec, sl, excl_p, excl_f, split):
+def run_sankey_case(spec, sl, excl_p, excl_f, split, replot=None):
     from flodym.export import PlotlySankeyPlotter
 
-    case = dict(kind="sankey", spec=spec, sl=sl, excl_p=excl_p, excl_f=excl_f, split=split)
+    case = dict(kind="sankey", spec=spec, sl=sl, excl_p=excl_p, excl_f=excl_f, split=split, replot=replot)
 
     def fail(kind, what):
         return "fail", dict(case=case, tags=dict(kind=kind, plot="sankey"), what=f"sankey of {spec} slice {sl} exclude processes {excl_p} flows {excl_f} split {split}: {what}")
@@ -137,7 +143,21 @@ def run_sankey_case(spec, sl, excl_p, excl_f, split):
             expected.append((src, tgt, sum(region.data.values()), n))
 
     def go_():
-        pl = PlotlySankeyPlotter(mfa=mfa, slice_dict=slice_obj(sl), exclude_processes=exp, exclude_flows=exf, flow_color_dict=color)
+        if replot is None:
+            pl = PlotlySankeyPlotter(mfa=mfa, slice_dict=slice_obj(sl), exclude_processes=exp, exclude_flows=exf, flow_color_dict=color)
+            return pl.plot()
+        # the plotter is built and used with FEWER exclusions first, then the exclusion lists are extended
+        # on the same object and it plots again
+        pl = PlotlySankeyPlotter(mfa=mfa, slice_dict=slice_obj(sl), exclude_processes=exp[:1] if replot == "append" else [], exclude_flows=[], flow_color_dict=color)
+        pl.plot()
+        if replot == "append":
+            for p in exp[1:]:
+                pl.exclude_processes.append(p)
+            for f in exf:
+                pl.exclude_flows.append(f)
+        else:
+            pl.exclude_processes = list(exp)
+            pl.exclude_flows = list(exf)
         return pl.plot()
 
     st, fig = attempt(go_)
@@ -176,6 +196,9 @@ def sankey_specs(tier):
                 if tier == "quick" and n == 2 and (hash_idx(sel) % 2):
                     continue
                 yield dict(nproc=nproc, flows=[list(f) for f in sel])
+                if (n == 1 or (tier == "thorough" and n == 2)) and len(sel[0][2]) >= 2:
+                    for z in sel[0][2][:2]:
+                        yield dict(nproc=nproc, flows=[list(f) for f in sel], zero=z)
 
 
 def hash_idx(sel):
@@ -205,6 +228,8 @@ def run_sankey_unit(u, rec):
                     if u["tier"] == "quick" and len(ep) >= 2 and len(ef) >= 1 and (n % 2):
                         continue
                     rec(*run_sankey_case(spec, sl, ep, ef, list(split) if split else None))
+                    if (ep or ef) and (u["tier"] == "thorough" or n % 9 == 0):
+                        rec(*run_sankey_case(spec, sl, ep, ef, list(split) if split else None, ("assign", "append")[n % 2]))
 
 
 # ---- array plotters --------------------------------------------------------------------------------
@@ -397,7 +422,7 @@ def run_unit(u):
 
 def replay(case):
     if case["kind"] == "sankey":
-        oc, f = run_sankey_case(case["spec"], case["sl"], case["excl_p"], case["excl_f"], case["split"])
+        oc, f = run_sankey_case(case["spec"], case["sl"], case["excl_p"], case["excl_f"], case["split"], case.get("replot"))
     else:
         oc, f = run_plot_case(case["backend"], case["arr_dims"], case["roles"], case["style"], case["xspec"], case["chart"])
     return [f] if f else []
